@@ -118,6 +118,12 @@ for _n in ("f_join_bl", "f_join_bb", "f_cross_bl"):
     GENERATED_ONLY[_n] = F(["kv" if "join" in _n else "n"], "unord", heavy=True)
 for _n in ("f_join_br", "f_cross_br"):
     GENERATED_ONLY[_n] = F(["kv" if "join" in _n else "n"], "ord", heavy=True, props=("C28", "C29"))
+for _n, _i, _k in (("x_across_enumerate", "n", "ord"), ("x_across_reduce", "n", "agg"), ("x_across_limit", "n", "ord"),
+                   ("x_across_fold_keyed", "kv", "keyed"), ("x_across_reduce_keyed", "kv", "keyed"),
+                   ("x_across_enumerate_unique", "n", "ord")):
+    GENERATED_ONLY[_n] = F([_i], _k, props=("C30",))
+for _n in ("x_atomic_enumerate", "x_all_ticks_atomic_enumerate"):
+    GENERATED_ONLY[_n] = F(["n"], "ord", props=("C28", "C29"))
 for _n in ("x_across_count", "x_across_fold", "x_across_unique"):
     GENERATED_ONLY[_n] = F(["n"], "agg" if _n != "x_across_unique" else "ord", props=("C30",))
 FLOWS.update(GENERATED_ONLY)
@@ -458,6 +464,8 @@ MODELLED_NODES = {
     "Tee": "shared subterm duplicated (translator), structural tee()",
     "JoinHalf": "SJoinHalf (top level, Bounded right side) / BJoin / BCross",
     "ChainFirst": "BChainFirst (Optional::or in a tick)",
+    "BeginAtomic": "identity in production; Atomic = top level for lifetimes",
+    "EndAtomic": "identity in production",
     "ReduceKeyedWatermark": "BReduceKeyedWm (in a tick)",
 }
 
@@ -906,7 +914,8 @@ def tr_s(x):
         if "Iter" in v["source"]:
             return "(SIter %s)" % g_vals(_iter_vals(v["source"]["Iter"]))
         return "(SSrc %d)" % _src_index(v)
-    if k in ("ObserveNonDet", "AssertIsConsistent"):
+    if k in ("ObserveNonDet", "AssertIsConsistent", "BeginAtomic", "EndAtomic"):
+        # identities in production; Atomic-located operators are top-level ('static) operators
         return tr_s(v["inner"])
     if k == "YieldConcat" and _is_tick(_node(v["inner"])[1]):
         # all_ticks_atomic inside across_ticks: the batches, seen again as one top-level stream
@@ -960,7 +969,7 @@ def tr_s(x):
 def tr_a(x):
     """top-level singleton / optional / keyed singleton node -> anode term"""
     k, v = _node(x)
-    if k in ("ObserveNonDet", "AssertIsConsistent", "Cast"):
+    if k in ("ObserveNonDet", "AssertIsConsistent", "Cast", "BeginAtomic", "EndAtomic"):
         return tr_a(v["inner"])
     # reified aggregates (ranode): the accumulator of a fold is a code when it is one of the
     # vocabulary closures proved commutative, so that wf_rab can decide the side conditions
